@@ -3,16 +3,17 @@ LEVEL = 'proof'
 VERUS = ['verus/C38.rs']
 TRUSTED = [
     'prelude / monomorphisation / U256 contract as in C01; glue_u128 apply_factor_p (apply_factor is re-proved in this same run)',
+    'rule R9 (logged): `for &x in a.iter().take(n) {` => `for _i9 in 0..min(n, a.len()) { let x = a[_i9];` (Iterator::take on an array iterator); vstd specs of u128::{saturating_add, saturating_mul, min}, usize::try_from(u128); assumed spec of Result::unwrap_or (listed)',
+    'constants APY_BUCKETS = 53, APY_LAST_INDEX = 52, SECONDS_PER_WEEK = 604800: defining expressions compared with /repo on every run',
     'unit rewrites (logged): `apply_factor::<u128, MARKET_DECIMALS>` => apply_factor_p (MARKET_DECIMALS = 20 imported from the store constants, compared each run under C31/C32), `ErrorCode::X` => error value without payload; require! per R6; msg! dropped (R16)',
 ]
 UNVERIFIED = [
-    'THE APY SCHEDULE CLAUSE IS NOT COVERED: compute_time_weighted_apy (average over each elapsed second of the weekly bucket, last bucket reused) iterates with `.iter().take(n)` and saturating sums -- outside Verus\' subset without rewriting the loop; no check is built for it. A change to compute_time_weighted_apy is NOT detected by this check.',
     'THE UNSTAKE CLAUSES ARE NOT COVERED: partial unstake returns exactly the requested tokens and keeps a proportional rounded-down value, full exit sweeps the vault, only full exits while claims are disabled -- Anchor handlers with token CPIs (unstake_lp)',
     'compute_reward_with_cpi (CPI refreshing the cumulative inverse cost, choice of the end time): not under contract',
     'no native replay: private fn of an Anchor program crate; a failed obligation is reported with the verifier output and no-failing-input-found',
 ]
-ASSUMPTIONS = []
+ASSUMPTIONS = ['compute_time_weighted_apy is called with now - stake_start_time representable in i64 (precondition of the contract; both are clock readings at its call sites; with overflow-checks on, a violation would be a panic, not a wrong value)']
 MANIFEST = dict(engine='verus',
-    technique='Verus contract on the private free function calculate_gt_reward_amount extracted by text from /repo each run, plus a monotonicity lemma over its spec function',
-    text='PARTIAL (reward amount only). Deductive proof, unbounded over all stakes, per-second APY factors and cost integrals: the GT reward equals floor(floor(stake * apy / 10^20) * integral / 10^20) saturated at u64::MAX, the computation succeeds whenever both intermediate values fit in u128; lemma: the reward never decreases with a larger stake or a longer cost integral. The APY-schedule and unstake clauses are not covered by any check (listed as unverified).',
-    note='Partial claim: only the reward-amount clause of C38. compute_time_weighted_apy and the unstake handlers are not covered.')
+    technique='Verus contracts on the private free functions compute_time_weighted_apy and calculate_gt_reward_amount extracted by text from /repo each run (the .iter().take(n) loop through rewrite rule R9, loop invariant over a recursive per-week sum), plus schedule and monotonicity lemmas',
+    text='PARTIAL (APY schedule and reward amount; not the unstake paths). Deductive proof, unbounded over all start times, current times, gradients, stakes and integrals: compute_time_weighted_apy returns the first bucket when no time has elapsed, and otherwise exactly floor(S / T) where T is the elapsed seconds and S the sum over each elapsed second of the weekly bucket of that second, weeks past the last bucket using the last one (S defined by recursion over seconds; stated whenever S fits in u128 -- beyond that the code saturates); lemma: with every bucket at most a cap the average is at most the cap. The GT reward equals floor(floor(stake * apy / 10^20) * integral / 10^20) saturated at u64::MAX, succeeds whenever both intermediate values fit in u128, and never decreases with a larger stake or a longer cost integral. The unstake clauses are not covered by any check (listed as unverified).',
+    note='Partial claim: APY schedule + reward amount. The unstake handlers (token CPIs) and compute_reward_with_cpi are not covered.')
